@@ -78,11 +78,84 @@ func c17ID(c *fw.Case, id uint64, class string) {
 	c.Cover("msgid/" + class)
 }
 
+// c17Sequence: conversions interleaved the way a gateway does them — strings kept while other ids are converted,
+// unparsable strings in between — every kept string and every parse judged against the reference.
+func c17Sequence(c *fw.Case) {
+	r := c.R
+	type kept struct {
+		id   uint64
+		s    string
+		copy string // the characters of s at the moment it was returned, in memory of our own
+	}
+	var held []kept
+	junk := []string{"", "abc", "12", "083010560000003003276", "08301056000000300327689", "0830105600000030032x68", "-830105600000030032768", " 830105600000030032768", "99999999999999999999999999"}
+	n := r.Range(3, 24)
+	pat := ""
+	for i := 0; i < n; i++ {
+		c.Evals(1)
+		op := r.Intn(4)
+		if len(held) == 0 {
+			op = 0
+		}
+		switch op {
+		case 0, 1: // convert a new id and keep the string
+			var p idParts
+			for k := range p {
+				p[k] = r.U64() % (idMax[k] + 1)
+			}
+			id := refCombine(p)
+			if r.Chance(1, 12) {
+				id = 0
+			}
+			var s string
+			if pan, val, st := fw.Try(func() { s = cmpp.MsgID2String(id) }); pan {
+				c.Failf("msgid-"+fw.PanicSig(val, st), "MsgID2String(%#x): %v\n%s", id, val, st)
+				return
+			}
+			held = append(held, kept{id, s, string(append([]byte(nil), s...))})
+			pat += "S"
+		case 2: // parse a string kept from an earlier conversion
+			k := held[r.Intn(len(held))]
+			var got uint64
+			if pan, val, st := fw.Try(func() { got = cmpp.MsgIDString2Uint64(k.s) }); pan {
+				c.Failf("msgid-"+fw.PanicSig(val, st), "MsgIDString2Uint64(%q): %v\n%s", k.s, val, st)
+				return
+			}
+			if k.s != k.copy {
+				c.Failf("string-changed-by-later-call", "the string MsgID2String returned for %#016x read %q when returned and reads %q after later conversions (call %d)", k.id, k.copy, k.s, i)
+				return
+			}
+			if k.id != 0 && got != k.id {
+				c.Failf("string-roundtrip/sequence", "MsgIDString2Uint64(%q) = %#016x, the string was produced from %#016x (call %d of a sequence: %s)", k.s, got, k.id, i, pat)
+				return
+			}
+			pat += "P"
+		default: // a string that is not an id: must not panic, and must not disturb what follows
+			j := junk[r.Intn(len(junk))]
+			if pan, val, st := fw.Try(func() { cmpp.MsgIDString2Uint64(j) }); pan {
+				c.Failf("msgid-"+fw.PanicSig(val, st), "MsgIDString2Uint64(%q): %v\n%s", j, val, st)
+				return
+			}
+			pat += "J"
+		}
+	}
+	for _, k := range held {
+		if k.s != k.copy {
+			c.Failf("string-changed-by-later-call", "the string MsgID2String returned for %#016x read %q when returned and reads %q at the end of the sequence %s", k.id, k.copy, k.s, pat)
+			return
+		}
+	}
+	if len(pat) > 4 {
+		pat = pat[:4]
+	}
+	c.Cover("sequence/" + pat)
+}
+
 func init() {
 	fw.Register(&fw.Prop{
 		ID:        "C17",
 		Technique: "runtime monitor: bit-layout reference (shifts taken from the CMPP text) + round-trip oracles, each field enumerated over its full range",
-		Rule: "each of the seven fields over its full range (gateway: all 2^22 values) with the other fields at all-zero, all-max and random (exhaustive per field), random tuples, boundary bit patterns and random 64-bit ids; " +
+		Rule: "each of the seven fields over its full range (gateway: all 2^22 values) with the other fields at all-zero, all-max and random (exhaustive per field), random tuples, boundary bit patterns and random 64-bit ids; call sequences of 3..24 conversions in which strings are kept while other ids are converted and unparsable strings are parsed in between, every kept string re-read at the end; " +
 			"distinct_nontrivial = distinct (field swept, background class) / pattern classes judged",
 		Assumptions: []string{"bit positions from CMPP 2.0/3.0 §8.3 Msg_Id (bit64~61 month … bit16~1 sequence)"},
 		Stages: []*fw.Stage{
@@ -134,6 +207,7 @@ func init() {
 					c.Sample(2, map[string]any{"fields": p, "id": fmt.Sprintf("%#016x", refCombine(p)), "string": cmpp.MsgID2String(refCombine(p))})
 				},
 			},
+			{Name: "sequence", N: q(60000, 60000000), Run: c17Sequence},
 		},
 	})
 }
